@@ -13,6 +13,7 @@ LINES_PER_OP = {
     "SchedDriver": lambda op: 1,
     "KvsmDriver": lambda op: 1,
     "FsDriver": lambda op: 1,
+    "ApiDriver": lambda op: 1,
     "ElectDriver": lambda op: 1,
     "JepsenDriver": lambda op: len(op.get("events", [])) + 1,
 }
@@ -86,6 +87,13 @@ CHECKS = {
                      "args": {"quick": ["-n", "40"], "thorough": ["-n", "1500"]}}],
         "rule": "2..5 hook-built election managers (no ticker goroutine) on a real in-process single-replica NodeHost running the real Drummer DB; per sequence: phase 1 = 6..25 rounds of arbitrary schedules (random order, one round in four a random multiset of servers, servers pausing for 3..10 turns, one turn in 15 with a cancelled context so that every DB operation of the turn fails); phase 2 = 12 round-fair rounds without failures (a leader emerges and renews); phase 3 = the holder stops taking turns, the others continue round-fairly for 10 rounds; after every turn the election record and every manager's view are compared with the Lean model; evaluations = turns, non-trivial = sequences",
         "assumptions": ["dragonboat SyncPropose / SyncRead are linearizable (one atomic DB operation per call)", "turn-level atomicity: interleavings of DB operations INSIDE two concurrent turns are not driven by this harness (PARTIAL, see level note)"],
+    },
+    "C17": {
+        "lean": ["DrummerVerif.Props.C17"],
+        "streams": [{"cmd": "apisrv", "driver": "ApiDriver", "sections": None, "eval_re": r"^case:", "timeout": 1500,
+                     "args": {"quick": ["-n", "12", "-len", "60"], "thorough": ["-n", "300", "-len", "150"]}}],
+        "rule": "the real Drummer service implementation on a real in-process single-replica NodeHost running the real DB; (1) each malformed configuration call (no members, empty application name, empty region specification, region/count lists of different length) is tried in a child process - a child that dies is a fail-stopped replica; (2) sequences of 60 (quick) calls: SubmitChange over 3 shard ids (one in four malformed), SetRegions (one in three malformed), SetBootstrapped, ReportAvailableNodeHost with reports drawn from a membership history, the leader's own ticks and request batches, GetShards / GetNodeHostCollection / GetShardConfigChangeIndexList / GetShardStates (0..2 ids of 4, known or not) / GetDeploymentInfo; every answer is compared with the Lean model; evaluations = calls + probes; non-trivial = sequences",
+        "assumptions": ["dragonboat SyncPropose / SyncRead are linearizable: an answer reflects the state at a single point between call and return (PARTIAL for concurrent callers: the correspondence uses sequential calls)"],
     },
     "C06": {
         "lean": ["DrummerVerif.Props.C06"],
